@@ -94,7 +94,9 @@ theorem key_stack_is_written_by_the_modelled_functions :
        ("fromMacro", ["Keys.Pop", "Keys.ReadKey", "PopForce", "PopKey", "WaitAvailableKeys"]),
        ("nested", ["Keys.Feed", "WaitAvailableKeys"]),
        ("matched", ["FlushUsed", "Keys.Pop", "Keys.ReadKey", "MatchedKeys", "MatchedPrefix"]),
-       ("closed", ["Keys.ReadKey", "WaitAvailableKeys"])] := by decide
+       ("closed", ["Keys.ReadKey", "WaitAvailableKeys"]),
+       ("partial", ["Keys.convertMeta"]),
+       ("asked", ["Keys.GetCursorPos"])] := by decide
 
 /-- `WB.prefixed`: only the dispatcher assigns `Engine.prefixed` -/
 theorem prefixed_bind_is_written_by_the_dispatcher_only :
